@@ -8,6 +8,7 @@ package wallet
 //  - vhNewWallet: a Wallet built from unexported fields.
 
 import (
+	"encoding/binary"
 	"encoding/hex"
 	"encoding/json"
 	"fmt"
@@ -279,6 +280,14 @@ var vhTheMint *vhMint
 
 var vhDerivedIds = false // keyset ids derived from the keys (NUT-02), needed where the wallet re-derives them (restore)
 
+func vhIdIndex(id string) uint64 {
+	b, err := hex.DecodeString(id)
+	if err != nil || len(b) < 8 {
+		return 0
+	}
+	return binary.BigEndian.Uint64(b) % (1<<31 - 1)
+}
+
 func vhNewMint(ppkActive, ppkInactive uint) *vhMint {
 	m := &vhMint{Keys: map[string]map[uint64]*secp256k1.PrivateKey{}, Ppk: map[string]uint{},
 		MintQ: map[string]*vhMintQuote{}, MeltQ: map[string]*vhMeltQuote{}, URL: "http://vhmint"}
@@ -297,6 +306,12 @@ func vhNewMint(ppkActive, ppkInactive uint) *vhMint {
 		}
 		ids[n] = id
 		m.Keys[id] = keys
+	}
+	v.Assume(ids[0] != ids[1]) // a mint's keysets have distinct ids (primary key of its keysets table)
+	if vhDerivedIds {
+		// stated: the ids do not collide in the NUT-13 path index (id mod 2^31-1); a collision (2^-31 per pair) makes two
+		// keysets share their deterministic secrets by specification
+		v.Assume(vhIdIndex(ids[0]) != vhIdIndex(ids[1]))
 	}
 	vhKsIds = ids
 	m.Active = ids[0]
